@@ -291,7 +291,48 @@ def check_rect(c):
     return res
 
 
-CHECKERS = {'maxvol': check_maxvol, 'rect': check_rect}
+def check_forms(c):
+    """Equivalent argument forms: Fortran-ordered / strided / integer-typed matrices, NumPy scalars for e, k, dr_min, dr_max."""
+    res = Res()
+    seed = c.get('seed', 0)
+    A = matrix(c, seed)
+    if c['kind'] == 'int':
+        Ai = A.astype(np.int64)
+    n, r = A.shape
+    big = np.zeros((2 * n, 2 * r))
+    view = big[::2, ::2]
+    view[...] = A
+    forms = {'fortran': np.asfortranarray(A), 'strided': view}
+    if c['kind'] == 'int':
+        forms['int64'] = A.astype(np.int64)
+    if np.linalg.matrix_rank(A) < r:
+        res.ev()
+        res.skip('rank-deficient catalogue matrix')
+        return res
+    for e in (1.01, 1.5):
+        res.ev()
+        I0, B0 = teneva.maxvol(A, e, 50)
+        J0, C0 = teneva.maxvol_rect(A, e, 1, 2)
+        for nm, X in forms.items():
+            Xb = X.tobytes()
+            with warnings.catch_warnings():
+                warnings.simplefilter('ignore')
+                I1, B1 = teneva.maxvol(X, e, 50)
+                J1, C1 = teneva.maxvol_rect(X, e, 1, 2)
+            res.check(np.array_equal(I1, I0) and np.abs(B1 - B0).max() <= 1e-10 and np.array_equal(J1, J0) and np.abs(C1 - C0).max() <= 1e-10, 'forms.matrix',
+                      dict(c, e=e, form=nm), lambda: 'the %s form of the matrix gives a different selection / coefficient matrix' % nm, ['forms'])
+            res.check(X.tobytes() == Xb, 'forms.untouched', dict(c, e=e, form=nm), 'the %s matrix was modified' % nm, ['forms'])
+        with warnings.catch_warnings():
+            warnings.simplefilter('ignore')
+            I2, B2 = teneva.maxvol(A, np.float64(e), np.int64(50))
+            J2, C2 = teneva.maxvol_rect(A, np.float64(e), np.int64(1), np.int32(2))
+        res.check(np.array_equal(I2, I0) and np.array_equal(B2, B0) and np.array_equal(J2, J0) and np.array_equal(C2, C0), 'forms.numpy_scalars', dict(c, e=e),
+                  'NumPy scalars for e / k / dr_min / dr_max change the result', ['forms'])
+    res.nt(('forms', c['r'], c['n'], c['kind']))
+    return res
+
+
+CHECKERS = {'maxvol': check_maxvol, 'rect': check_rect, 'forms': check_forms}
 
 KINDS = ['gen', 'int', 'grad4', 'grad8', 'illc6', 'illc8', 'duprow', 'zerorow', 'restzero', 'restdup', 'perm']
 
@@ -319,5 +360,7 @@ def strata(tier, seed):
     yield Stratum('maxvol-iteration-graph', [dict(c) for c in cs], 'maxvol', size=len(cs), chunk=2,
                   bounds={'r': sorted({c['r'] for c in cs}), 'n-r': [1, max(c['n'] - c['r'] for c in cs)],
                           'k': 'every limit 0..fixpoint+2, 100, default', 'e': cs[0]['es']})
+    fm = [dict(c) for c in cs if not c.get('huge') and c['n'] - c['r'] >= 2 and c.get('tag', 0) == 0]
+    yield Stratum('argument forms', fm, 'forms', size=len(fm), chunk=4, bounds={'forms': ['fortran', 'strided', 'int64', 'numpy scalars']})
     yield Stratum('rect-all-dr-pairs', [dict(c) for c in cs], 'rect', size=len(cs), chunk=2,
                   bounds={'dr_min': '-1..n-r+1', 'dr_max': '0..n-r+1 and None'})
